@@ -86,6 +86,16 @@ fn run_gadget(ctx: &mut Ctx) {
         590,
         n_mut,
     );
+    // boundary: a plain instance column without any value (the circuit does not constrain it)
+    gadget::run_light_opt(
+        ctx,
+        &mut setup,
+        &FamParams { n_committed: 0, n_plain: 1, inst_copies: false, ..FamParams::default() },
+        0,
+        591,
+        n_mut,
+        true,
+    );
     for i in 0..n_random {
         let fp = sample_supported(&mut rng);
         let extra_k = if rng.gen_bool(0.3) { rng.gen_range(1..=3) } else { 0 };
